@@ -278,3 +278,89 @@ def run(chk, site="C18/auto-files", sizes=None):
              "expressions evaluated as arithmetic against the spec and its central differences; re-exports into a directory that already holds "
              "the files of an earlier export (declarations swapped / other values); distinct = parameter counts",
         sample_of=lambda c: dict(tag=c["tag"], n_params=c["features"]["n_params"]), timeout=900)
+
+
+def compiled_case(c):
+    """The exported module COMPILED (f2py) and called: STPNT holds the model's parameter values and initial state, FUNC(y, PAR) equals the
+    model's right-hand sides — at states on both sides of every sigmoid's threshold (helper functions such as fsigmoid are emitted as
+    Fortran source text that the text-level contract above can only take by its mathematical meaning)."""
+    import os, sys, importlib
+    import numpy as np
+    os.environ["PATH"] = "/venv/bin:" + os.environ.get("PATH", "")
+    from pyrates import OperatorTemplate, NodeTemplate, CircuitTemplate
+    P = [("tau1", 1.5), ("tau2", 0.8), ("k1", 2.0), ("k2", -1.25), ("s1", 1.7), ("s2", 0.9), ("th1", 0.4), ("th2", -0.3), ("c", 0.35), ("g1", 1.1), ("g2", 0.7)]
+    S = [("r1", 0.2), ("r2", -0.1)]
+    op = OperatorTemplate(name="opx", path=None,
+                          equations=["r1' = (-r1 + g1*k1*sigmoid(s1*(r2 - th1))) / tau1", "r2' = (-r2 + g2*k2*sigmoid(s2*(r1 - th2)) + c) / tau2"],
+                          variables=dict({n: v for n, v in P}, r1="output(0.2)", r2="variable(-0.1)"))
+    net = CircuitTemplate(name="sg", path=None, nodes={"p": NodeTemplate(name="pn", path=None, operators=[op])})
+
+    def ref(y, p):
+        sg = lambda x: 1.0 / (1.0 + np.exp(-x))
+        return np.array([(-y[0] + p["g1"] * p["k1"] * sg(p["s1"] * (y[1] - p["th1"]))) / p["tau1"],
+                         (-y[1] + p["g2"] * p["k2"] * sg(p["s2"] * (y[0] - p["th2"])) + p["c"]) / p["tau2"]])
+    try:
+        net.get_run_func("vfx", step_size=1e-3, file_name="auto_cmp", backend="fortran", float_precision="float64", auto=True, auto_jac=False,
+                         vectorize=False, solver="scipy", verbose=False)
+        sys.path.insert(0, os.getcwd())
+        mod = importlib.import_module("auto_cmp")
+        cfile = open("c.ivp" if os.path.exists("c.ivp") else sorted(f_ for f_ in os.listdir(".") if f_.startswith("c."))[0]).read()
+        parnames = {int(k): v for k, v in re.findall(r"(\d+)\s*:\s*'([^']+)'", re.search(r"parnames\s*=\s*\{([^}]*)\}", cfile).group(1))}
+        unames = {int(k): v for k, v in re.findall(r"(\d+)\s*:\s*'([^']+)'", re.search(r"unames\s*=\s*\{([^}]*)\}", cfile).group(1))}
+        npar = max(36, int(re.search(r"NPAR\s*=\s*(\d+)", cfile).group(1)))
+        par, y0 = np.full(npar, np.nan), np.full(2, np.nan)
+        mod.stpnt(y0, par, 0.0)
+    except Exception as exn:
+        return dict(status="violated", fails=[dict(clause="auto-07p export (auto_jac=False) compiles and STPNT can be called", observed=f"{type(exn).__name__}: {str(exn)[:300]}")])
+    fails = []
+    slot_of = {v.split("/")[-1]: k for k, v in parnames.items()}
+    pos_of = {v.split("/")[-1]: k - 1 for k, v in unames.items()}
+    if sorted(slot_of) != sorted(n for n, _ in P) or sorted(pos_of) != ["r1", "r2"]:
+        return dict(status="violated", fails=[dict(clause="compiled export: parnames / unames name the model's parameters and states", observed=dict(parnames=parnames, unames=unames))])
+    for n, v in P:
+        if par[slot_of[n] - 1] != v:
+            fails.append(dict(clause="compiled export: STPNT holds the model's parameter values", var=n, observed=float(par[slot_of[n] - 1]), expected=v))
+    for n, v in S:
+        if y0[pos_of[n]] != v:
+            fails.append(dict(clause="compiled export: STPNT holds the model's initial state", var=n, observed=float(y0[pos_of[n]]), expected=v))
+    if fails:
+        return dict(status="violated", fails=fails[:2])
+
+    def exported(ym, pv):
+        y = np.zeros(2)
+        for n in ("r1", "r2"):
+            y[pos_of[n]] = ym[n]
+        pvec = np.where(np.isnan(par), 0.0, par)
+        for n, v in pv.items():
+            pvec[slot_of[n] - 1] = v
+        out = np.asarray(mod.func(y, np.array([1], dtype=np.int32), pvec, 0, np.zeros((2, 2), order="F"), np.zeros((2, npar), order="F")), dtype=float)
+        return np.array([out[pos_of["r1"]], out[pos_of["r2"]]])
+    base = dict(P)
+    rng = np.random.default_rng(c.get("seed", 0))
+    points = [dict(r1=0.2, r2=-0.1), dict(r1=2.0, r2=3.0), dict(r1=-3.0, r2=-1.0), dict(r1=0.1, r2=1.7)] + \
+             [dict(r1=float(a), r2=float(b)) for a, b in np.round(rng.uniform(-4, 4, size=(4, 2)), 3)]
+    for ym in points:
+        got, want = exported(ym, base), ref([ym["r1"], ym["r2"]], base)
+        if not np.allclose(got, want, rtol=1e-9, atol=1e-12):
+            fails.append(dict(clause="compiled export: FUNC(y, PAR) equals the model's right-hand sides", state=ym, observed=got.tolist(), expected=want.tolist()))
+            break
+    for n, v in P:
+        pm = dict(base)
+        pm[n] = v * 1.5 + 0.25
+        ym = points[3]
+        got, want = exported(ym, pm), ref([ym["r1"], ym["r2"]], pm)
+        if not np.allclose(got, want, rtol=1e-9, atol=1e-12):
+            fails.append(dict(clause="compiled export: FUNC follows the model's dependence on every parameter through its own slot", var=n, observed=got.tolist(), expected=want.tolist()))
+            break
+    return dict(status="violated" if fails else "ok", fails=fails[:2])
+
+
+def run_compiled(chk, site="C18/compiled-export"):
+    driver.run_family(
+        chk, "auto07p-compiled-export", [dict(tag="AUC-two-states-eleven-parameters-sigmoid", features=dict(n_params=11, compiled=True), seed=chk.seed),
+                                         dict(tag="AUC-two-states-eleven-parameters-sigmoid/second-seed", features=dict(n_params=11, compiled=True, second=True), seed=chk.seed + 101)],
+        compiled_case, site=site,
+        rule="one two-state model with sigmoidal coupling and 11 parameters (crossing the reserved range), exported with auto=True, auto_jac=False, compiled by "
+             "f2py: STPNT against the declared values and initial state, FUNC at fixed and seeded states on both sides of the thresholds and with every "
+             "parameter perturbed through its own PAR slot, against the closed form; distinct = (model, state seed)",
+        sample_of=lambda c: dict(tag=c["tag"]), timeout=900)
